@@ -2,10 +2,13 @@ package c15
 
 import (
 	"bufio"
+	"errors"
+	"fmt"
 	"net"
 	"strings"
 	"sync"
 	"sync/atomic"
+	"syscall"
 	"time"
 )
 
@@ -14,6 +17,7 @@ import (
 var hostileKinds = []string{
 	"silent",               // accepts, never sends a byte
 	"backlog",              // listening socket whose owner never calls accept
+	"syn-unanswered",       // listening socket whose accept queue is full: the connect itself gets no answer (an overloaded or black-holed host)
 	"partial-prompt",       // "Callsi" and then nothing
 	"prompt-no-cr",         // "Callsign :" without the CR, then nothing
 	"garbage-no-cr",        // endless stream of bytes without any CR (keeps the read busy)
@@ -38,12 +42,57 @@ type hostile struct {
 	conns    []net.Conn
 	accepted atomic.Int64 // connections the server saw
 	gotBytes atomic.Int64 // bytes the dialler sent
+	// syn-unanswered: a raw listening socket (backlog 0) and its address
+	fd      int
+	rawAddr string
+}
+
+var errNoFullQueue = errors.New("the accept queue of a loopback socket could not be filled on this system")
+
+// startUnanswered opens a loopback socket that listens with a backlog of zero, never accepts, and fills its accept
+// queue: the kernel then drops further SYNs, a connect to it gets no answer at all.
+func startUnanswered() (*hostile, error) {
+	fd, err := syscall.Socket(syscall.AF_INET, syscall.SOCK_STREAM|syscall.SOCK_CLOEXEC, 0)
+	if err != nil {
+		return nil, err
+	}
+	h := &hostile{kind: "syn-unanswered", stop: make(chan struct{}), fd: fd}
+	if err = syscall.Bind(fd, &syscall.SockaddrInet4{Addr: [4]byte{127, 0, 0, 1}}); err == nil {
+		err = syscall.Listen(fd, 0)
+	}
+	var sa syscall.Sockaddr
+	if err == nil {
+		sa, err = syscall.Getsockname(fd)
+	}
+	if err != nil {
+		syscall.Close(fd)
+		return nil, err
+	}
+	h.rawAddr = fmt.Sprintf("127.0.0.1:%d", sa.(*syscall.SockaddrInet4).Port)
+	for i := 0; i < 16; i++ {
+		c, err := net.DialTimeout("tcp", h.rawAddr, 400*time.Millisecond)
+		if err != nil {
+			var ne net.Error
+			if errors.As(err, &ne) && ne.Timeout() {
+				return h, nil // from now on connects get no answer
+			}
+			h.close()
+			return nil, err
+		}
+		h.conns = append(h.conns, c)
+	}
+	h.close()
+	return nil, errNoFullQueue
 }
 
 func startHostile(kind string) (*hostile, error) {
 	ln, err := net.Listen("tcp", "127.0.0.1:0")
 	if err != nil {
 		return nil, err
+	}
+	if kind == "syn-unanswered" {
+		ln.Close()
+		return startUnanswered()
 	}
 	h := &hostile{ln: ln, kind: kind, stop: make(chan struct{})}
 	if kind == "backlog" {
@@ -68,12 +117,21 @@ func startHostile(kind string) (*hostile, error) {
 	return h, nil
 }
 
-func (h *hostile) addr() string { return h.ln.Addr().String() }
+func (h *hostile) addr() string {
+	if h.ln == nil {
+		return h.rawAddr
+	}
+	return h.ln.Addr().String()
+}
 
 // close ends the server; every connection is closed, which also releases a dial that hangs.
 func (h *hostile) close() {
 	close(h.stop)
-	h.ln.Close()
+	if h.ln == nil {
+		syscall.Close(h.fd)
+	} else {
+		h.ln.Close()
+	}
 	h.mu.Lock()
 	for _, c := range h.conns {
 		c.Close()
